@@ -174,7 +174,14 @@ def check_program_scope(kc, name, text, scope, years, run_engine=True, zone_limi
     sel = [i for i, nm in enumerate(names) if nm not in truncated]
     if zone_limit is not None and len(sel) > zone_limit:
         import random
-        sel = sorted(random.Random(kc.a.seed).sample(sel, zone_limit))
+        # zones whose AT / UNTIL / STDOFF values are off the 15-minute grid exercise the packed minute fields: always keep
+        # them (up to half of the sample), draw the rest with the seed
+        offgrid_pol = set(p for p, rules in tz['rules_map'].items() if any(r['atSecondsTruncated'] % 900 for r in rules))
+        first = [i for i in sel if any(e['untilSecondsTruncated'] % 900 or e['offsetSecondsTruncated'] % 900 or e.get('rules') in offgrid_pol
+                                       for e in tz['zones_map'][names[i]])][:zone_limit // 2]
+        rest = [i for i in sel if i not in first]
+        sel = sorted(first + random.Random(kc.a.seed).sample(rest, zone_limit - len(first)))
+        rep['always_sampled_offgrid'] = [names[i] for i in first]
     items = [dict(name='%s/%s/%s' % (name, sc, names[i]), scope=sc, index=i, zone=names[i], years=years) for i in sel]
     old_bc = kc.bc
     kc.bc = bc
